@@ -1215,6 +1215,49 @@ func runC08(res *Result, tier string, seed int64, replay string) {
 			}
 		}
 	}
+	// an option of the caller's own that clears a field the entry points fill in before the options run (FontTracker): every
+	// path must then still give the document the fonts IT uses — before and after another document was compiled the same way
+	if replay == "" {
+		clear := func(o *mjml.RenderOpts) { o.FontTracker = nil }
+		fontDoc := `<mjml><mj-body><mj-section><mj-column><mj-text font-family="Montserrat, Arial">m</mj-text><mj-button font-family="Lato" href="u">l</mj-button></mj-column></mj-section></mj-body></mjml>`
+		others := []string{`<mjml><mj-body></mj-body></mjml>`, `<mjml><mj-body><mj-section><mj-column><mj-image src="i.png"/></mj-column></mj-section></mj-body></mjml>`,
+			`<mjml><mj-body><mj-section><mj-column><mj-text font-family="Arial">plain</mj-text></mj-column></mj-section></mj-body></mjml>`, fontDoc}
+		paths := map[string]func(src string, opt ...mjml.RenderOption) (string, error){
+			"Render": func(src string, opt ...mjml.RenderOption) (string, error) { return mjml.Render(src, opt...) },
+			"RenderFromAST": func(src string, opt ...mjml.RenderOption) (string, error) {
+				ast, err := mjml.ParseMJML(src)
+				if err != nil {
+					return "", err
+				}
+				return mjml.RenderFromAST(ast, opt...)
+			},
+			"NewFromAST+RenderComponentString": func(src string, opt ...mjml.RenderOption) (string, error) {
+				ast, err := mjml.ParseMJML(src)
+				if err != nil {
+					return "", err
+				}
+				comp, err := mjml.NewFromAST(ast, opt...)
+				if err != nil {
+					return "", err
+				}
+				return mjml.RenderComponentString(comp)
+			},
+		}
+		for pn, path := range paths {
+			for di, d := range others {
+				plain, _ := path(d)
+				before, _ := path(d, clear)
+				path(fontDoc, clear)
+				after, _ := path(d, clear)
+				res.Case(fmt.Sprintf("cleared-option-field|%s|%d", pn, di), true)
+				if before != after || alphaIDs(mjml.VerifNormalizeGroupColumnClassOrder(before)) != alphaIDs(mjml.VerifNormalizeGroupColumnClassOrder(plain)) {
+					res.Violate(Violation{Sig: fmt.Sprintf("history-dependent|cleared-option-field|%s|%d", pn, di), Kind: "history",
+						What:  fmt.Sprintf("%s with a caller option that clears FontTracker: the same document compiles differently after another document was compiled the same way (equal before/after: %v, equal to the call without the option: %v)", pn, before == after, before == plain),
+						Input: map[string]interface{}{"source": d, "compiled-between": fontDoc}})
+				}
+			}
+		}
+	}
 	// histories
 	var hists [][]string
 	if replay != "" {
